@@ -5,13 +5,23 @@ Three ties:
        drop_level / flatten under the guard of _run_mapping) on generated (stored tree,
        reduced-tree records) vs Model/RunMapping.v (reduce 1702, backfill 1701,
        reduce+place+backfill 1703), plus the predicate spec_c17 (1704) on the real output;
+ (i')  the reduced tree as a tree: for every generated tree and every reduction (each droppable
+       level, flatten, drop+flatten) the REAL reduced TaxonomyTree is queried like the marker
+       reconciliation and the election query it - nodes_at_level, children and parents of every
+       node, as_leaves, leaves_to_compare of every parent - and compared with the queries of
+       Model/Tree.v on RunMapping.reduce (tag 1706) and with a TaxonomyTree built from the
+       reduced data alone; class c17-reduced-tree-query-differs;
  (ii)  election level: the real election.run_type_assignment with a table-driven oracle on
        the really reduced tree, marked directly_assigned, really backfilled, vs
        run_mapping_model with the table-driven decide (1705);
  (iii) pipeline level: paired REAL run_mapping runs with a common seed (drop_level=L vs a
        statistics file holding the model's drop_level t L; flatten vs a one-level taxonomy;
        an absent level), compared bitwise at the shared levels; run B's records pushed
-       through the model (1703) must give run A's complete output; spec_c17 on run A."""
+       through the model (1703) must give run A's complete output; spec_c17 on run A.
+       Besides the random scenarios: taxonomies of 4-5 levels with a dropped MIDDLE level whose
+       child level is a parent level, and marker tables in which parents below the dropped level
+       have fewer genes in the query than min_markers (2, 3, 5), so that the marker
+       reconciliation borrows from the ancestors of the reduced tree."""
 import copy
 import json
 from fractions import Fraction
@@ -836,13 +846,20 @@ def run(ctx):
                 'every droppable level, flatten, drop+flatten, leaf level, absent level} x random paths with dyadic numbers, '
                 'vs reduce/backfill/place of Model/RunMapping.v and spec_c17 on the real output; also arbitrary '
                 'presence patterns and foreign node names (KeyError); non-trivial = >=2 levels and >=1 level inferred, '
-                'distinct by (shape, configuration, records). (ii) real election with a table-driven oracle on the really '
+                'distinct by (shape, configuration, records). (i\') every reduction (each droppable level, flatten, '
+                'drop+flatten) of every one of those trees: nodes_at_level / children / parents of EVERY node, as_leaves and '
+                'leaves_to_compare of every parent of the real reduced TaxonomyTree vs Tree.v queries on RunMapping.reduce (tag '
+                '1706) and vs a TaxonomyTree built from the reduced data alone; non-trivial = a level other than the top one '
+                'was dropped (parents() must skip it). (ii) real election with a table-driven oracle on the really '
                 'reduced tree + real backfill vs run_mapping_model; non-trivial = some parent with >=2 children. '
                 '(iii) paired real run_mapping runs with a common seed: drop_level=L vs a statistics file whose taxonomy is '
                 "the model's drop_level t L (tag 1004); flatten vs a one-level taxonomy with the sorted union of all marker "
                 'lists; a level absent from the taxonomy vs no drop; compared bitwise at the shared levels, dropped level = '
                 'parent of the finer assignment, flagged inferred; run B pushed through the model must give run A; '
-                'non-trivial = a pair on a tree with >= 2 levels')
+                'non-trivial = a pair on a tree with >= 2 levels; plus scenarios with 4-5 levels, a dropped middle level whose '
+                'child level is a parent level, parents of that child level with fewer query genes than min_markers in {2,3,5} '
+                'and ancestors with marker lists of their own (non-trivial = the log shows the borrowing from a proper '
+                'ancestor and a cell is routed through that parent)')
     ctx.assumptions += [
         'level names are positions in the stored hierarchy; a drop_level name that is not in the hierarchy is an index >= the number of levels',
         'the marker cache and the bootstrapped vote are abstract in the theorems (any decision procedure that depends only on '
